@@ -16,6 +16,7 @@ import (
 	"errors"
 	"fmt"
 	"io"
+	"math"
 	"net"
 	"os"
 	"os/exec"
@@ -2170,6 +2171,19 @@ func main() {
 				}
 				dispCase(o, "disp.priority-shapes", regs, []int32{4, 0, 4, 4, 0, 5}, nil)
 			}
+		}
+	}
+	// priorities at the ends of the int range: an ordering computed by SUBTRACTING priorities (b.Priority - a.Priority)
+	// overflows when two priorities of one table differ by more than math.MaxInt; comparison does not
+	// (all below the marker handler, whose calls tell the recorder which packet is being dispatched)
+	extreme := []int{math.MinInt, math.MinInt + 1, math.MinInt + 2, -(1 << 62), -(1 << 62) - 1, -2, -1, 0, 1, 2, 1 << 29, markerPrio - 1}
+	for rep := 0; rep < o.N(40, 5); rep++ {
+		for _, n := range []int{2, 3, 5, 7, 13, 20} {
+			regs := []regOp{{generic: true, hs: []hspec{{0, markerPrio, 0}}}}
+			for t := 1; t <= n; t++ {
+				regs = append(regs, regOp{generic: r.Intn(2) == 0, hs: []hspec{{4, extreme[r.Intn(len(extreme))], t}}})
+			}
+			dispCase(o, "disp.extreme-priorities", regs, []int32{4, 0, 4, 5, 0, 4}, nil)
 		}
 	}
 	for i := 0; i < o.N(500, 10); i++ {
